@@ -130,6 +130,28 @@ def install(handler, g):
                 if g_ != f:
                     bad.append(f"{f!r} -> {g_!r}")
             return bool(bad), "; ".join(bad) or "round trip exact"
+        if "_quantisation_backend" in ob:
+            # the real backend on a hand-built graph, for ordinary and for full-mantissa (NOT lossless) formats
+            import torch.nn.functional as F_
+
+            msgs = []
+            for fwd_, bwd_ in ((FPFormat(4, 3, "nearest"), FPFormat(5, 2, "nearest")), (FPFormat(4, 23, "nearest"), FPFormat(5, 23, "nearest")), (FPFormat(8, 23, "nearest"), FPFormat(8, 23, "nearest"))):
+                g = fx.Graph()
+                x_, w_ = g.placeholder("x"), g.placeholder("w")
+                lin = g.call_function(F_.linear, (x_, w_))
+                g.output(lin)
+                gm = fx.GraphModule(torch.nn.Module(), g)
+                out = sf._quantisation_backend(fwd_, bwd_)(gm, [])
+                tg = [n.target for n in out.graph.nodes if n.op == "call_function"]
+                if tg != [sf._quantised_linear]:
+                    msgs.append(f"formats {fwd_}/{bwd_}: the F.linear node was not replaced by its quantised wrapper (targets {[getattr(t, '__name__', t) for t in tg]})")
+                else:
+                    xv, wv = torch.tensor([[300.0, 1000.0]]), torch.tensor([[1.0, 1.0]])
+                    got = out(xv, wv)
+                    want = bwd_.quantise_bwd(F_.linear(fwd_.quantise_fwd(xv), fwd_.quantise_fwd(wv)))
+                    if not torch.equal(got if isinstance(got, torch.Tensor) else got[0], want):
+                        msgs.append(f"formats {fwd_}/{bwd_}: output {got} != hand-inserted quantisation {want}")
+            return bool(msgs), "; ".join(msgs)[:600] or "matching nodes are replaced for every format pair"
         m = re.search(r"callshape\[positional=(\[.*?\]),keyword=(\[.*?\])\]", ob)
         if m:
             pos, kw = ast.literal_eval(m.group(1)), ast.literal_eval(m.group(2))
@@ -235,6 +257,42 @@ def install(handler, g):
                 if not isinstance(m, type(m0)):
                     msgs.append(f"root {type(m0).__name__}: the result is not an instance of the source class")
             return bool(msgs), "; ".join(msgs) or "the backend is invoked for root torch.nn layers"
+        if "retrace_on_first_call" in ob or "traced_exactly_once" in ob or "stale" in ob:
+            # transform, CALL the result, transform again: is the second backend applied, and to the new copy?
+            from unit_scaling.transforms.utils import apply_transform
+
+            class Tiny2(nn.Module):
+                def __init__(self):
+                    super().__init__()
+                    self.l = nn.Linear(3, 3)
+
+                def forward(self, x):
+                    return torch.relu(self.l(x))
+
+            calls = {"first": 0, "second": 0}
+
+            def b1(gm, ex):
+                calls["first"] += 1
+                return gm
+
+            def b2(gm, ex):
+                calls["second"] += 1
+                return gm
+
+            a = apply_transform(Tiny2(), b1)
+            x = torch.randn(2, 3)
+            a(x)
+            b = apply_transform(a, b2)
+            y = b(x)
+            y.sum().backward()
+            msgs = []
+            if calls["second"] == 0:
+                msgs.append("the second transform's backend was never invoked (the copy re-used the source's compiled forward)")
+            if b.l.weight.grad is None:
+                msgs.append("the new module's own parameters received no gradient")
+            if a.l.weight.grad is not None:
+                msgs.append("backward through the new module accumulated into the SOURCE module's parameters")
+            return bool(msgs), "; ".join(msgs) or "a second transform after a call re-traces and uses the copy's own parameters"
         if "dynamo_cache_reset" in ob:
             # more transformed copies of ONE module class than TorchDynamo's recompile limit: is the
             # backend still applied to every copy?
